@@ -512,6 +512,7 @@ class Calibration:
             weights=self.weights,
             weights_from_file=self.weights_from_file,
             with_inherited_coords=with_inherited_coords,
+            pipeline_seed=self.pipeline_seed,
         )
 
         # Create an archipelago
